@@ -41,6 +41,9 @@ pub enum Stream {
 		spec: WavSpec,
 		start: usize,
 		seeks: Vec<(usize, usize)>,
+		/// the second seek (if any) is issued as `seek_by` from the position the handle reports
+		#[serde(default)]
+		second_by: bool,
 		chunks: usize,
 		chunk: usize,
 		/// loop region in frames (start, exclusive end)
@@ -170,12 +173,22 @@ fn gen_case(seed: u64, index: u64, tier: Tier) -> Case {
 					if !tail_seeks_ok {
 						// known finding (open): seeks are ignored once the decoder has reached the end of
 						// the file; only seek while more than a ring of audio is still undecoded
-						v.truncate(1);
-						v.retain(|(at, _)| start + (at + 2) * chunk_probe + 16_384 + 64 < frames);
+						v.sort_by_key(|s| s.0);
+						v.dedup_by_key(|s| s.0);
 						v.iter_mut().for_each(|s| s.1 = s.1.min(frames.saturating_sub(18_000)));
+						// (the first seek while the stream, played from `start`, is far from decoded;
+						// a second one while the stream, played on from the first target, still is)
+						let first_ok = v.first().map(|(at, _)| start + (at + 2) * chunk_probe + 16_384 + 64 < frames).unwrap_or(true);
+						if !first_ok {
+							v.clear();
+						}
+						if v.len() == 2 && !(v[0].1 + (v[1].0 - v[0].0 + 2) * chunk_probe + 16_384 + 64 < frames) {
+							v.truncate(1);
+						}
 					}
 					v
 				},
+				second_by: rng.chance(0.5),
 				chunks,
 				chunk: if tail_seeks_ok { *rng.pick(&[64usize, 256, 1000]) } else { *rng.pick(&[64usize, 256, 1000]) },
 				loop_region: if rng.chance(0.35) {
@@ -271,7 +284,7 @@ fn stream_out(
 	chunk: usize,
 	res: &mut CaseResult,
 ) -> Option<(Vec<Frame>, Option<String>, PlaybackState)> {
-	stream_out_looped(seed, bytes, fault, sample_rate, start, seeks, chunks, chunk, None, res)
+	stream_out_looped(seed, bytes, fault, sample_rate, start, seeks, chunks, chunk, None, false, res)
 }
 
 #[allow(clippy::too_many_arguments)]
@@ -285,6 +298,7 @@ fn stream_out_looped(
 	chunks: usize,
 	chunk: usize,
 	loop_region: Option<(f64, f64)>,
+	second_by: bool,
 	res: &mut CaseResult,
 ) -> Option<(Vec<Frame>, Option<String>, PlaybackState)> {
 	let sim = Sim::new(seed);
@@ -316,9 +330,15 @@ fn stream_out_looped(
 	let mut out = Vec::with_capacity(chunks * chunk);
 	let mut buf = vec![Frame::ZERO; chunk];
 	for c in 0..chunks {
-		for (at, pos) in seeks {
+		for (si, (at, pos)) in seeks.iter().enumerate() {
 			if *at == c {
-				handle.seek_to(*pos);
+				if second_by && si == 1 {
+					// relative to the position the handle reports now (which is what the decoder reads)
+					handle.seek_by(*pos - handle.position());
+					res.hit("relative_seeks_after_an_earlier_seek");
+				} else {
+					handle.seek_to(*pos);
+				}
 			}
 		}
 		for d in &decoders {
@@ -458,7 +478,7 @@ pub fn run_case(case: &Case) -> CaseResult {
 			});
 			beh.u64(*streaming as u64);
 		}
-		Stream::StreamFile { spec, start, seeks, chunks, chunk, loop_region } => {
+		Stream::StreamFile { spec, start, seeks, chunks, chunk, loop_region, second_by } => {
 			if !exact_rate(spec.sample_rate) {
 				return res;
 			}
@@ -473,7 +493,7 @@ pub fn run_case(case: &Case) -> CaseResult {
 			let sr = spec.sample_rate as f64;
 			let seeks_s: Vec<(usize, f64)> = seeks.iter().map(|(at, f)| (*at, *f as f64 / sr + 0.25 / sr)).collect();
 			let loop_s = loop_region.map(|(a, b)| (a as f64 / sr + 0.1 / sr, b as f64 / sr + 0.1 / sr));
-			let Some((out, err, _)) = stream_out_looped(case.seed, bytes, Fault::None, spec.sample_rate, *start as f64 / sr + 0.1 / sr, &seeks_s, *chunks, *chunk, loop_s, &mut res) else {
+			let Some((out, err, _)) = stream_out_looped(case.seed, bytes, Fault::None, spec.sample_rate, *start as f64 / sr + 0.1 / sr, &seeks_s, *chunks, *chunk, loop_s, *second_by, &mut res) else {
 				return res;
 			};
 			// with a loop region a seek target outside it may be wrapped into it (which way depends on
@@ -695,7 +715,7 @@ impl Check for C18 {
 		CheckInfo {
 			id: "C18",
 			level: "fault_enumeration",
-			rule: "streams by case index: header (1/8) = systematic (encoding x mono/stereo) x every bit of every size / format field of the RIFF header (plain, then extensible; loaded, then streamed): no panic, no hang; load (1/8) = PCM WAV from the harness's own encoder (u8, s16, s24, s32, f32, f64; 1..4 channels; plain or WAVE_FORMAT_EXTENSIBLE header with the default channel mask (mono = front centre); 7 rates; 0..6000 frames; seeded samples) loaded and compared with the independent decode; fault (4/8) = systematic (encoding x mono/stereo x {truncate at byte k, flip a bit of byte k, I/O error at byte k, EINTR on the k-th read, short reads of 1..9 bytes, unseekable} x every byte offset k of a 12-frame file), loaded or streamed; stream (1/8) = 17000..40000-frame index-coded WAV streamed through the real decoder from a seeded start position with up to 2 seeks, compared with the loaded frames by decoded index; asset (1/8) = the shipped .wav / .ogg files loaded, streamed, truncated, bit-flipped and read in short pieces; non-trivial = frames were compared or a fault was applied; distinct = hash of (encoding, channels, size class, fault kind and offset / asset and fault bucket)",
+			rule: "streams by case index: header (1/8) = systematic (encoding x mono/stereo) x every bit of every size / format field of the RIFF header (plain, then extensible; loaded, then streamed): no panic, no hang; load (1/8) = PCM WAV from the harness's own encoder (u8, s16, s24, s32, f32, f64; 1..4 channels; plain or WAVE_FORMAT_EXTENSIBLE header with the default channel mask (mono = front centre); 7 rates; 0..6000 frames; seeded samples) loaded and compared with the independent decode; fault (4/8) = systematic (encoding x mono/stereo x {truncate at byte k, flip a bit of byte k, I/O error at byte k, EINTR on the k-th read, short reads of 1..9 bytes, unseekable} x every byte offset k of a 12-frame file), loaded or streamed; stream (1/8) = 17000..40000-frame index-coded WAV streamed through the real decoder from a seeded start position with up to 2 seeks (the second one, half of the time, as seek_by from the reported position), compared with the loaded frames by decoded index; asset (1/8) = the shipped .wav / .ogg files loaded, streamed, truncated, bit-flipped and read in short pieces; non-trivial = frames were compared or a fault was applied; distinct = hash of (encoding, channels, size class, fault kind and offset / asset and fault bucket)",
 			assumptions: vec![
 				"for a bit flip inside the RIFF header only 'no panic, no hang' is demanded (the header then describes a different, possibly valid file)".into(),
 				"streaming is compared at rate 1 with device rate == file rate, for rates where sr * (1/sr) == 1.0 (see the C04 known finding)".into(),
